@@ -13,7 +13,7 @@ RULE = ("pure part: path templates from the corpus, from a grammar of the AIP cl
         "spaces, percent signs, unicode, '/' and newlines. One case = one (template, value) pair, distinct by canonical JSON, "
         "non-trivial when the template has a named segment. Implicit part: structured http path templates (0-3 variables, dotted and "
         "reserved names, sub-patterns) and noisy strings. End to end: generated APIs (explicit rules of 1-4 parameters with shared "
-        "keys, nested and reserved fields, no template / class templates; implicit rules incl. custom http patterns; no rule; paginated "
+        "keys, nested and reserved fields, request type in the API package or in a proto sub-package, no template / class templates; implicit rules incl. custom http patterns; no rule; paginated "
         "methods listed over three pages with the header checked on every request; sequences of two and three calls on one client "
         "sharing one caller-owned metadata list / tuple / the default, with different requests per call; one fixed API "
         "through the alternative Ads template tree, sync gRPC only), each method called through the "
@@ -216,15 +216,26 @@ def snake(s):
     return re.sub(r"(?<=[a-z0-9])([A-Z])", r"_\1", s).lower()
 
 
+def req_cls(methods):
+    """Where the emitted library keeps the request class (a proto sub-package gets its own types package)."""
+    return PKG + (".shared" if methods and methods[0].get("subpkg") else "") + ".types:RouteRequest"
+
+
 def build_api(r, methods):
     """methods: [{'name','kind':'explicit'|'implicit'|'none','params':[(field, template|None)],'http':(verb, uri)}]"""
     f = File("google/example/library/v1/library.proto", "google.example.library.v1",
              deps=list(apigen.STD_DEPS) + ["google/api/routing.proto"])
-    inner = f.message("Inner")
+    # methods[0]["subpkg"]: the request messages live in a proto sub-package of the API (still proto-plus types)
+    subpkg = bool(methods and methods[0].get("subpkg"))
+    g = f
+    if subpkg:
+        g = File("google/example/library/v1/shared/shared.proto", "google.example.library.v1.shared", deps=list(apigen.STD_DEPS))
+        f.dep(g.proto.name)
+    inner = g.message("Inner")
     inner.field("id", 1, "string").field("class", 2, "string").field("ipv4_range", 3, "string")
-    sub = f.message("Sub")
+    sub = g.message("Sub")
     sub.field("name", 1, "string").field("class", 2, "string").field("type", 3, "string").field("inner", 4, inner.fqn).field("isbn13", 5, "string")
-    req = f.message("RouteRequest")
+    req = g.message("RouteRequest")
     for i, n in enumerate(["name", "parent", "table_name", "app_profile_id", "resource", "class", "type"], 1):
         req.field(n, i, "string")
     req.field("sub", 8, sub.fqn)
@@ -249,7 +260,7 @@ def build_api(r, methods):
         if m["kind"] == "explicit" and not m["params"]:      # an annotation without parameters is still an annotation
             from google.api import routing_pb2
             svc.proto.method[-1].options.Extensions[routing_pb2.routing].SetInParent()
-    return apigen.request([f], parameter="transport=grpc+rest"), req.fqn
+    return apigen.request([g, f] if subpkg else [f], parameter="transport=grpc+rest"), req.fqn
 
 
 def gen_methods(r, n):
@@ -303,6 +314,8 @@ def gen_methods(r, n):
     for m in out:
         if m["http"][0] != "custom" and r.random() < 0.3:
             m["paged"] = True          # listed page by page: every request of the listing must carry the header
+    if out and r.random() < 0.3:
+        out[0]["subpkg"] = True        # the request type lives in a proto sub-package of the API (another Python package, still proto-plus)
     return out
 
 
@@ -620,7 +633,7 @@ def run_e2e(ctx, n_apis, nreq, reserved, tag="e2e", fixed=None, sequences=0):
         gen.materialize(res, d)
         D = dyn.Dyn(req)
         calls, meta = [], []
-        lfqn = req_fqn.rsplit(".", 1)[0] + ".ListRoutesResponse"
+        lfqn = ".google.example.library.v1.ListRoutesResponse"
         page_msgs = [D.b64(D.new(lfqn, items=items, next_page_token=tok)) for items, tok in PAGES]
         page_json = [json.dumps({"items": items, "nextPageToken": tok}) for items, tok in PAGES]
         for mi, m in enumerate(methods):
@@ -634,7 +647,7 @@ def run_e2e(ctx, n_apis, nreq, reserved, tag="e2e", fixed=None, sequences=0):
                 for tr in (("grpc", "grpc_asyncio") if m["http"][0] == "custom" else ("grpc", "grpc_asyncio", "rest")):
                     spec = {"service_module": "router", "client": "RouterAsyncClient" if tr == "grpc_asyncio" else "RouterClient",
                             "transport": tr, "method": snake(m["name"]),
-                            "request": {"mode": "message", "cls": PKG + ".types:RouteRequest", "b64": D.b64(msg)},
+                            "request": {"mode": "message", "cls": req_cls(methods), "b64": D.b64(msg)},
                             "call_kwargs": {"retry": "none", "timeout": 10.0}}
                     if m.get("paged"):      # a listing of three pages: the servers answer with next_page_token until the last one
                         spec["consume"] = "pager"
@@ -662,7 +675,7 @@ def run_e2e(ctx, n_apis, nreq, reserved, tag="e2e", fixed=None, sequences=0):
             for tr in (("grpc", "grpc_asyncio") if m["http"][0] == "custom" else ("grpc", "grpc_asyncio", "rest")):
                 for kind in ("list", "tuple", "default"):
                     seqs.append({"service_module": "router", "client": "RouterAsyncClient" if tr == "grpc_asyncio" else "RouterClient",
-                                 "transport": tr, "method": snake(m["name"]), "cls": PKG + ".types:RouteRequest", "requests": b64s,
+                                 "transport": tr, "method": snake(m["name"]), "cls": req_cls(methods), "requests": b64s,
                                  "md_kind": kind, "md": SEQ_MD})
                     seq_meta.append((m, reqs, tr, kind))
         if seqs and not isinstance(out, Exception):
